@@ -146,7 +146,8 @@ def straddle_prelude(rng, dev, reg):
 
 
 def run_case(case):
-    info = dict(user_pulses=set(), dmm_weights={})
+    info = dict(user_pulses=set(), dmm_weights={}, pulse_targets={})
+    intended = {}  # channel name -> atoms the program last pointed the channel at
     ids = case["register"]["ids"]
 
     def hook(i, op, seq, ok, maps):
@@ -162,6 +163,22 @@ def run_case(case):
                     if op["op"] == "config_slm":
                         tg = set(op["qubits"])
                     info["dmm_weights"][name] = {q: (1.0 if q in tg else 0.0) for q in ids}
+        # the atoms each pulse is meant for, from the calls themselves (not from the
+        # schedule): declaration / last successful retarget of the channel
+        for name, cs in seq._schedule.items():
+            if name not in intended and (isinstance(cs, _DMMSchedule) or cs.channel_obj.addressing == "Global"):
+                intended[name] = frozenset(ids)
+        if ok and op["op"] == "declare" and op.get("initial_target") and op["name"] in seq._schedule \
+                and seq._schedule[op["name"]].channel_obj.addressing == "Local":
+            intended[op["name"]] = frozenset(op["initial_target"])
+        if ok and op["op"] == "target":
+            intended[op["channel"]] = frozenset(op["qubits"])
+        if ok and op["op"] == "target_index":
+            intended[op["channel"]] = frozenset(ids[j] for j in op["qubits"])
+        if ok and op["op"] in ("add", "add_dmm", "add_eom"):
+            cs = seq._schedule.get(op["channel"])
+            if cs is not None and cs.slots and isinstance(cs.slots[-1].type, Pulse) and op["channel"] in intended:
+                info["pulse_targets"][(op["channel"], cs.slots[-1].ti)] = intended[op["channel"]]
         if ok and op["op"] in ("add", "add_dmm"):
             cs = seq._schedule.get(op["channel"])
             if cs is not None and cs.slots and isinstance(cs.slots[-1].type, Pulse):
